@@ -181,6 +181,29 @@ class _Text(str):
     """A plain str subclass: still 'a text'."""
 
 
+class _Masked(str):
+    """A str subclass whose str() / repr() / format() show something else than its value (a redacting wrapper, a
+    member of a `class X(str, Enum)`): the *value* is the text."""
+
+    def __str__(self):
+        return "****"
+
+    def __repr__(self):
+        return "<masked>"
+
+    def __format__(self, spec):
+        return "****"
+
+
+def _enum_member(text):
+    import enum  # noqa: PLC0415
+
+    try:
+        return enum.Enum("Known", {"ENTRY": text}, type=str).ENTRY
+    except Exception:  # noqa: BLE001
+        return None
+
+
 _SUBS: dict = {}
 
 
@@ -274,6 +297,7 @@ def wrapped_inputs_agree(mon, ctor, o_ctor, o_unv, text, kw, w, tag):
     the *default* flags, or as another str subclass must be judged like the plain string."""
     plain = observe(ctor, text) if kw else o_ctor
     for name, arg in (("unvalidated_object", o_unv.value if o_unv.ok else None), ("str_subclass", _Text(text)),
+                      ("str_subclass_with_own_str", _Masked(text)), ("str_enum_member", _enum_member(text)),
                       ("object_validated_with_default_flags", plain.value if plain.ok else None)):
         if arg is None:
             continue
